@@ -404,8 +404,15 @@ class ctx:
 
         async def generator() -> AsyncGenerator[Result, None]:
             async with streaming_context:
-                async for result in source(*args, **kwargs):
-                    yield result
+                results: AsyncGenerator[Result, None] = source(*args, **kwargs)
+                try:
+                    async for result in results:
+                        yield result
+
+                finally:
+                    # when closed before the end close the source right away within the same
+                    # context instead of leaving it to the garbage collector
+                    await results.aclose()
 
         # finally return it as an iterator running each step within the snapshot
         return _ContextStream(
